@@ -1,7 +1,8 @@
 CONSTANTS MaxOps = 4
           ResyncOnChange = TRUE
+          DocCacheByText = FALSE
           LintMemo = FALSE
 INIT JInit
 NEXT JNext
-INVARIANTS CloneBehavesTheSame ImportedWordsAccepted IgnoredStayHidden AnswerIsCurrent
+INVARIANTS CloneBehavesTheSame ImportedWordsAccepted IgnoredStayHidden PromisedHidden AnswerIsCurrent
 CHECK_DEADLOCK FALSE
